@@ -1475,7 +1475,8 @@ PROPS = {
         'run': run_c14, 'level': 'proof',
         'trust': ['hand-written Gallina models Model/Arith.v and Model/Measures.v (int64 wrap-around explicit, float64(int64) as round53), compared exactly with the Go functions (exported ones directly, unexported ones through the verif hooks) on every generated input',
                   'the float64 result of Area64 is compared through its exact value (2*Area64 as an integer)',
-                  'lib/propdefs.py: exact-integer statement of each clause (shoelace sum, extremes, crossing parity, cross product) evaluated on the implementation outputs'],
+                  'lib/propdefs.py: exact-integer statement of each clause (shoelace sum, extremes, crossing parity, cross product) evaluated on the implementation outputs',
+                  'PointInPolygon: the model is PROVED equal to the exact even-odd specification for every polygon of >= 3 vertices not contained in the horizontal line through the query point, coordinates within 2^29 (Model/PipProofs.v, no axioms); what remains trusted is model = code, compared exactly on every generated pair'],
         'rule': 'int64 values around 0, +-1, 2^26, 2^29, 2^53, arbitrary 64-bit patterns for the arithmetic kernels; point triples biased to exact collinearity and unit differences; paths of all generator kinds plus the 2^30 square wound 1-5 times; point/polygon pairs with the point on vertices, edges and horizontals through vertices, on grids 2..10 and at 2^26/2^29, triangles spanning the whole domain with query points a few units off their long edges; CrossProduct on random, nearly collinear far-apart (products beyond 2^54, exact value below 100) and wrapping triples; non-trivial = collinear triples, paths >= 3 points, all point-in-polygon cases',
         'assumes': [],
     },
